@@ -94,6 +94,7 @@ func c19(c *core.Check) {
 	c.Assume = []string{"the counter style named decimal cannot be redefined by a document once the user-agent sheet defined it (validation.ParseCounterStyleName refuses it), so falling back to decimal terminates"}
 
 	c19Merge(c)
+	c19Descriptors(c)
 	r1 := c.Rule("R1", "every integer / and % of css/counters has a divisor proven non-zero, and every % whose result indexes a list has a dividend proven non-negative (Go's % keeps the sign of the dividend)", 12)
 	divisionRule(c, r1, inPkgs("css/counters"))
 	// the sign is accounted for in the padding exactly when it is written: both steps test isNegative && useNegative
@@ -496,4 +497,173 @@ func c19Merge(c *core.Check) {
 		}
 		r.Cond(whole, key, p.Pos(ifs.Pos()), how, how+": a descriptor that was set to a value with an empty part is overwritten by the extended style's")
 	}
+}
+
+// c19Descriptors: order and bounds of the @counter-style descriptors, and the order in which the counter properties
+// are applied.
+func c19Descriptors(c *core.Check) {
+	p := c.Prog
+	r := c.Rule("R7", "counter plumbing: the two values of `negative` are read in source order (prefix, then suffix); `infinite` is negative infinity as the lower bound of a range and positive infinity as the upper bound; UpdateCounters applies counter-reset, then counter-increment, then counter-set (CSS Lists 3 §4); the `value` attribute hint belongs to the li element", 5)
+	// negative: tokens read from the front
+	if fn := p.Fn("css/validation", "negative"); fn == nil {
+		r.Anchor("css/validation.negative")
+	} else {
+		bad, n := "", 0
+		core.Instrs(fn, func(in ssa.Instruction) {
+			ia, ok := in.(*ssa.IndexAddr)
+			if !ok {
+				return
+			}
+			if par, isP := ia.X.(*ssa.Parameter); !isP || par != fn.Params[0] {
+				if phi, isPhi := ia.X.(*ssa.Phi); !isPhi || phi.Comment != "tokens" {
+					return
+				}
+			}
+			n++
+			if k, isK := core.ConstInt(ia.Index); isK && k == 0 {
+				return
+			}
+			if phi, isPhi := ia.Index.(*ssa.Phi); isPhi && phi.Comment == "rangeindex" {
+				return
+			}
+			if bo, isB := ia.Index.(*ssa.BinOp); isB && bo.Op == token.ADD { // rangeindex + 1
+				return
+			}
+			bad = p.Pos(ia.Pos())
+		})
+		r.Cond(bad == "" && n > 0, "css/validation.negative | values read in source order", p.Pos(fn.Pos()), "tokens are taken from the front", "the tokens of `negative` are not taken front to back (at "+bad+"): `negative: '(' ')'` prints the suffix before the number")
+	}
+	// range: infinite
+	if fn := p.Fn("css/validation", "range_"); fn == nil {
+		r.Anchor("css/validation.range_")
+	} else {
+		neg, pos := false, false
+		core.Instrs(fn, func(in ssa.Instruction) {
+			st, ok := in.(*ssa.Store)
+			if !ok {
+				return
+			}
+			if k, isK := core.ConstInt(st.Val); isK {
+				if k <= -(1 << 30) {
+					neg = true
+				}
+				if k >= 1<<30 {
+					pos = true
+				}
+			}
+		})
+		// phi of the two bounds stored once
+		core.Instrs(fn, func(in ssa.Instruction) {
+			if phi, ok := in.(*ssa.Phi); ok {
+				for _, e := range phi.Edges {
+					if k, isK := core.ConstInt(e); isK {
+						if k <= -(1 << 30) {
+							neg = true
+						}
+						if k >= 1<<30 {
+							pos = true
+						}
+					}
+				}
+			}
+		})
+		r.Cond(neg && pos, "css/validation.range_ | infinite", p.Pos(fn.Pos()), "both a negative and a positive infinity are stored", fmt.Sprintf("`infinite` stands for negative infinity: %v, positive infinity: %v — a range open below (`infinite 5`) cannot be written", neg, pos))
+	}
+	// order of application
+	if fn := p.Fn("html/boxes", "UpdateCounters"); fn == nil {
+		r.Anchor("html/boxes.UpdateCounters")
+	} else {
+		calls := map[string]ssa.Instruction{}
+		core.Instrs(fn, func(in ssa.Instruction) {
+			if call, ok := in.(*ssa.Call); ok && call.Call.IsInvoke() {
+				switch nm := call.Call.Method.Name(); nm {
+				case "GetCounterReset", "GetCounterIncrement", "GetCounterSet":
+					calls[nm] = in
+				}
+			}
+		})
+		if len(calls) != 3 {
+			r.Anchor("UpdateCounters: reads of counter-reset, counter-increment, counter-set")
+		} else {
+			// the value each loop consumes is read just before it: the order of the reads is the order of application
+			// unless a loop over a value is separated from its read, which the rule does not follow
+			r.Cond(instrDominates(calls["GetCounterReset"], calls["GetCounterIncrement"]) && loopsBetween(fn, calls["GetCounterReset"], calls["GetCounterIncrement"]), "html/boxes.UpdateCounters | reset before increment", p.Pos(calls["GetCounterIncrement"].Pos()), "counter-reset is read and applied first", "counter-increment is applied before counter-reset")
+			r.Cond(instrDominates(calls["GetCounterIncrement"], calls["GetCounterSet"]), "html/boxes.UpdateCounters | increment before set", p.Pos(calls["GetCounterSet"].Pos()), "counter-set is read after the increments", "counter-set is applied before counter-increment: an element with both gets the increment on top of the value set (CSS Lists 3 §4: reset, increment, set)")
+		}
+	}
+	// li value
+	if fn := p.Fn("html/tree", "findStyleAttributes"); fn == nil {
+		r.Anchor("html/tree.findStyleAttributes")
+	} else {
+		var site *ssa.BasicBlock
+		core.InstrsDeep(fn, func(f *ssa.Function, in ssa.Instruction) {
+			call, ok := in.(*ssa.Call)
+			if !ok || len(call.Call.Args) == 0 {
+				return
+			}
+			name := ""
+			if cal := call.Call.StaticCallee(); cal != nil {
+				name = cal.Name()
+			}
+			if name != "Get" {
+				return
+			}
+			if s, ok := core.ConstStr(call.Call.Args[len(call.Call.Args)-1]); ok && s == "value" && f == fn {
+				site = call.Block()
+			}
+		})
+		liVal, ok := atomValue(p, "Li")
+		if site == nil || !ok {
+			r.Anchor("findStyleAttributes: element.Get(\"value\") / atom.Li")
+		} else {
+			// the switch over DataAtom: which constants lead to the site
+			var reaching []int64
+			for _, a := range core.CondAtoms(fn) {
+				b, isB := a.(*ssa.BinOp)
+				if !isB || b.Op != token.EQL {
+					continue
+				}
+				k, isK := core.ConstInt(b.Y)
+				if !isK || !core.IsFieldNamed(core.Unwrap(b.X), "DataAtom") {
+					continue
+				}
+				if b.Block().Succs[0] == site || (len(b.Block().Succs) > 0 && b.Block().Succs[0].Dominates(site)) {
+					reaching = append(reaching, k)
+				}
+			}
+			okLi := len(reaching) > 0
+			for _, k := range reaching {
+				if k != liVal {
+					okLi = false
+				}
+			}
+			r.Cond(okLi, "html/tree.findStyleAttributes | value attribute", p.Pos(site.Instrs[0].Pos()), "read under the li element only", fmt.Sprintf("the value attribute is read for the element atoms %v, not for li (%d): <li value=5> does not set the list-item counter", reaching, liVal))
+		}
+	}
+}
+
+// loopsBetween is a placeholder for "the loop consuming the first read ends before the second read": true when the
+// second read is not inside a loop that starts before it (the reads sit at the top level of the function).
+func loopsBetween(fn *ssa.Function, a, b ssa.Instruction) bool {
+	for _, l := range core.Loops(fn) {
+		if l.Blocks[a.Block()] && l.Blocks[b.Block()] {
+			return false
+		}
+	}
+	return true
+}
+
+// atomValue reads a constant of golang.org/x/net/html/atom.
+func atomValue(p *core.Prog, name string) (int64, bool) {
+	if pk := p.AllPkgs["golang.org/x/net/html/atom"]; pk != nil {
+		if cst, ok := pk.Types.Scope().Lookup(name).(*types.Const); ok {
+			if v, ok := constant.Int64Val(cst.Val()); ok {
+				return v, true
+			}
+			if v, ok := constant.Uint64Val(cst.Val()); ok {
+				return int64(v), true
+			}
+		}
+	}
+	return 0, false
 }
